@@ -1,6 +1,8 @@
 package main
 
 import (
+	"strings"
+	"github.com/klauspost/compress/s2"
 	"encoding/binary"
 	"bytes"
 	"encoding/json"
@@ -426,6 +428,35 @@ func c17Receive(ctx *Ctx) {
 		return
 	}
 	b, how := mutate(r, pf.Bytes())
+	if r.Intn(3) == 0 {
+		// a packfile whose block object decompresses fine but is not a valid block (no rows, more than 255,
+		// fewer rows than announced, a cut cell): must be refused and must not stay in the store
+		valid := validEncoding(r, "block")
+		var hostile []byte
+		switch r.Intn(5) {
+		case 0:
+			hostile = []byte{0, 0, 0, 0}
+		case 1:
+			hostile = append([]byte{0, 0, 1, 0}, valid[4:]...)
+		case 2:
+			if len(valid) >= 4 {
+				hostile = append([]byte{}, valid...)
+				hostile[3]++
+			}
+		case 3:
+			if len(valid) > 6 {
+				hostile = valid[:len(valid)-1-r.Intn(len(valid)-5)]
+			}
+		default:
+			hostile = valid[:min(len(valid), 3)]
+		}
+		pb := newBuf()
+		pw, err := packfile.NewPackfileWriter(pb)
+		if err == nil {
+			pw.WriteObject(packfile.ObjectBlock, s2.EncodeBetter(nil, hostile))
+			b, how = pb.Bytes(), "hostile-block"
+		}
+	}
 	in := &c17RecvInput{Bytes: hx(b), PerByte: 512, Slack: 16 << 20}
 	var ms1, ms2 runtime.MemStats
 	runtime.GC()
@@ -461,6 +492,22 @@ func c17Receive(ctx *Ctx) {
 		}
 	}
 	res["dangling"] = dangling
+	// … and no block that the validator refuses may have been stored
+	invalid := 0
+	for _, k := range dst.Keys() {
+		if !strings.HasPrefix(k, "blk/") {
+			continue
+		}
+		raw, err := dst.Get([]byte(k))
+		if err != nil {
+			continue
+		}
+		dec, err := s2.Decode(nil, raw)
+		if err != nil || objects.ValidateBlockBytes(dec) != nil {
+			invalid++
+		}
+	}
+	res["invalidStored"] = invalid
 	ctx.Emit("receive", in, res, true, "mut="+how)
 }
 
